@@ -128,6 +128,8 @@ impl<H: Hal, const SIZE: usize> VirtQueue<H, SIZE> {
             unsafe {
                 (*desc.as_ptr())[i as usize].next = i + 1;
             }
+            #[cfg(virtio_drivers_verif)]
+            crate::verif_hooks::stored();
         }
 
         #[cfg(feature = "alloc")]
@@ -199,6 +201,8 @@ impl<H: Hal, const SIZE: usize> VirtQueue<H, SIZE> {
         unsafe {
             (*self.avail.as_ptr()).ring[avail_slot as usize] = head;
         }
+        #[cfg(virtio_drivers_verif)]
+        crate::verif_hooks::stored();
 
         // Write barrier so that device sees changes to descriptor table and available ring before
         // change to available index.
@@ -212,6 +216,8 @@ impl<H: Hal, const SIZE: usize> VirtQueue<H, SIZE> {
                 .idx
                 .store(self.avail_idx, Ordering::Release);
         }
+        #[cfg(virtio_drivers_verif)]
+        crate::verif_hooks::stored();
 
         Ok(head)
     }
@@ -330,6 +336,8 @@ impl<H: Hal, const SIZE: usize> VirtQueue<H, SIZE> {
 
         // Wait until there is at least one element in the used ring.
         while !self.can_pop() {
+            #[cfg(virtio_drivers_verif)]
+            crate::verif_hooks::spin();
             spin_loop();
         }
 
@@ -350,6 +358,8 @@ impl<H: Hal, const SIZE: usize> VirtQueue<H, SIZE> {
                     .flags
                     .store(avail_ring_flags, Ordering::Release)
             }
+            #[cfg(virtio_drivers_verif)]
+            crate::verif_hooks::stored();
         }
     }
 
@@ -379,6 +389,8 @@ impl<H: Hal, const SIZE: usize> VirtQueue<H, SIZE> {
         unsafe {
             (*self.desc.as_ptr())[index] = self.desc_shadow[index].clone();
         }
+        #[cfg(virtio_drivers_verif)]
+        crate::verif_hooks::stored();
     }
 
     /// Returns whether there is a used element that can be popped.
@@ -563,6 +575,8 @@ impl<H: Hal, const SIZE: usize> VirtQueue<H, SIZE> {
                     .used_event
                     .store(self.last_used_idx, Ordering::Release);
             }
+            #[cfg(virtio_drivers_verif)]
+            crate::verif_hooks::stored();
         }
 
         Ok(len)
@@ -571,6 +585,51 @@ impl<H: Hal, const SIZE: usize> VirtQueue<H, SIZE> {
 
 // SAFETY: None of the virt queue resources are tied to a particular thread.
 unsafe impl<H: Hal, const SIZE: usize> Send for VirtQueue<H, SIZE> {}
+
+/// Read-only views of private state for external verification harnesses.
+#[cfg(virtio_drivers_verif)]
+impl<H: Hal, const SIZE: usize> VirtQueue<H, SIZE> {
+    /// Returns `(num_used, free_head, avail_idx, last_used_idx)`.
+    pub fn verif_state(&self) -> (u16, u16, u16, u16) {
+        (
+            self.num_used,
+            self.free_head,
+            self.avail_idx,
+            self.last_used_idx,
+        )
+    }
+
+    /// Returns `(addr, len, flags, next)` of the shadow descriptor at `index`.
+    pub fn verif_shadow(&self, index: usize) -> (u64, u32, u16, u16) {
+        let d = &self.desc_shadow[index];
+        (d.addr, d.len, d.flags.bits(), d.next)
+    }
+
+    /// Returns the queue index given at construction.
+    pub fn verif_queue_idx(&self) -> u16 {
+        self.queue_idx
+    }
+}
+
+/// Read-only access to private layout helpers for external verification harnesses.
+#[cfg(virtio_drivers_verif)]
+pub mod verif {
+    use core::mem::size_of;
+
+    /// Wrapper for the private `queue_part_sizes`.
+    pub fn queue_part_sizes(queue_size: u16) -> (usize, usize, usize) {
+        super::queue_part_sizes(queue_size)
+    }
+
+    /// `(size_of::<Descriptor>(), align_of::<Descriptor>(), size_of::<UsedElem>())`.
+    pub fn elem_sizes() -> (usize, usize, usize) {
+        (
+            size_of::<super::Descriptor>(),
+            core::mem::align_of::<super::Descriptor>(),
+            size_of::<super::UsedElem>(),
+        )
+    }
+}
 
 // SAFETY: A `&VirtQueue` only allows reading from the various pointers it contains, so there is no
 // data race.
